@@ -15,3 +15,13 @@ done
 git -C /repo worktree remove --force "$W"
 # the run regenerated lean/AdaptaVerif/Gen from the scratch tree: restore it from /repo
 python3 /verif/tools/cpp2lean/jobs.py >/dev/null 2>&1
+# ...and whatever else the properties' own regenerate hooks write
+for c in "$@"; do
+  python3 - "$c" <<'PY' >/dev/null 2>&1
+import sys, importlib
+from pathlib import Path
+sys.path.insert(0, "/verif/check")
+m = importlib.import_module("props." + sys.argv[1])
+if hasattr(m, "regenerate"): m.regenerate(Path("/verif"), Path("/repo"))
+PY
+done
